@@ -391,7 +391,6 @@ impl<'arena, 'input: 'arena> Lexer<'arena, 'input> {
                         message: ArenaCow::Borrowed("Dis number no get digit after `.`"),
                     }],
                 );
-                self.pos += 1;
                 return self.next_token().token;
             }
             while self.pos < len && self.src[self.pos].is_ascii_digit() {
